@@ -36,9 +36,11 @@ def cls_spec(cx):
             hits = [g for g, o in v.options if isinstance(o, ClsV) and o.name == name]
             return z3.Or(*hits) if hits else z3.BoolVal(False)
         if isinstance(v, ObjV):
-            from .c11 import possible_classes
-            hits = [g for g, cn in possible_classes(v) if cn == name]
-            return z3.Or(*hits) if hits else z3.BoolVal(False)
+            from pyvc import verify
+            tag = v.fields.get("__cls__")
+            if tag is None:
+                return z3.BoolVal(v.cls == name)
+            return tag == verify.world().cls_tag(name)
         if isinstance(v, Opt):
             return z3.And(z3.Not(v.none), is_cls(v.val, name))
         return z3.BoolVal(False)
@@ -106,7 +108,7 @@ SpecT = ObjT("AdapterSpecification", name=OptT(Str), restriction=OptT(Str), sequ
 PARAM_KEYS = ["max_errors", "min_overlap", "anywhere", "required", "indels"]
 SEARCH_KEYS = ["max_errors", "min_overlap", "read_wildcards", "adapter_wildcards", "indels"]
 
-_SS = (AII, I, AII, I)      # (specification string, adapter type string)
+_SS = (AII, I, I)           # (specification string, adapter type code: 0 front, 1 back, 2 anywhere, 3 anything else)
 P_NAME_NONE = z3.Function("parsed.name.none", *_SS, B)
 P_NAME_ARR = z3.Function("parsed.name.arr", *_SS, AII)
 P_NAME_N = z3.Function("parsed.name.n", *_SS, I)
@@ -123,8 +125,10 @@ def parsed_spec(cx):
     them (the contracts of the constructors are stated relative to it; what it is for a given string is the reference
     parser's business)."""
     def args_of(spec, typ):
-        s, t = as_str(spec), as_str(typ)
-        return (s.arr, s.n, t.arr, t.n)
+        s = as_str(spec)
+        code = z3.If(str_eq(typ, PyConst("front")), 0, z3.If(str_eq(typ, PyConst("back")), 1,
+                                                             z3.If(str_eq(typ, PyConst("anywhere")), 2, 3)))
+        return (s.arr, s.n, code)
 
     def parsed(spec, typ):
         a = args_of(spec, typ)
@@ -203,7 +207,8 @@ def ctor_spec(cx):
     def kwval(obj, key):
         v = kw(obj, key)
         if v is None:
-            raise Unsupported(f"constructor argument {key} never passed")
+            # not an argument of this object's constructor: an arbitrary value (a clause that needs it cannot be proved)
+            return StrV(fresh("absent.arr", AII), fresh("absent.n", I))
         return v.val if isinstance(v, Opt) else v
 
     def entry_absent(d, key):
@@ -260,8 +265,20 @@ def class_table(obj, spec_obj):
                         for t, cond, cls in rows)
 
 
+SingleObjT = ObjT("Adapter", __cls__=Int, kw_sequence=Str, a0=Str, kw_name=OptT(Str), kw_max_errors=OptT(Real), kw_min_overlap=OptT(Int),
+                  kw_indels=OptT(Bool), kw_read_wildcards=OptT(Bool), kw_adapter_wildcards=OptT(Bool), kw_force_anywhere=OptT(Bool))
+LinkedObjT = ObjT("LinkedAdapter", __cls__=Int, kw_front_adapter=SingleObjT, kw_back_adapter=SingleObjT, kw_front_required=Bool,
+                  kw_back_required=Bool, kw_name=OptT(Str))
+
+
+AnyAdapterT = ObjT("Adapter", __cls__=Int, kw_sequence=Str, a0=Str, kw_name=OptT(Str), kw_max_errors=OptT(Real), kw_min_overlap=OptT(Int),
+                   kw_indels=OptT(Bool), kw_read_wildcards=OptT(Bool), kw_adapter_wildcards=OptT(Bool), kw_force_anywhere=OptT(Bool),
+                   kw_front_adapter=SingleObjT, kw_back_adapter=SingleObjT, kw_front_required=Bool, kw_back_required=Bool)
+
+
 @contract("parser.py", "_make_not_linked_adapter", props=["C18"])
 def make_not_linked_adapter(c):
+    c.returns(SingleObjT)
     c.types(spec=Str, name=OptT(Str), adapter_type=Str, search_parameters=SearchT)
     c.runtime = {"module": "c18", "name": "specification", "replay_count": 4000}
     c.spec(cls_spec)
@@ -283,6 +300,7 @@ def make_not_linked_adapter(c):
         adapter_level_parameters_override_the_given_defaults=" and ".join(
             f"precedence(result, '{k}', {P}.parameters, search_parameters)" for k in ["max_errors", "min_overlap", "indels"]) +
         " and precedence(result, 'read_wildcards', search_parameters) and precedence(result, 'adapter_wildcards', search_parameters)",
+        never_a_linked_adapter="not is_cls(result, 'LinkedAdapter')",
         anywhere_parameter_becomes_force_anywhere_for_regular_adapters_only=
         f"passed(result, 'force_anywhere') == ((not entry_absent({P}.parameters, 'anywhere')) and entry_val({P}.parameters, 'anywhere') and {REGULAR}) "
         f"and not passed(result, 'anywhere') and not passed(result, 'required')",
@@ -298,6 +316,7 @@ def make_linked_adapter(c):
     """A...B: the 5' part is parsed as a -g adapter, the 3' part as a -a adapter; with -g both parts are required, with -a
     the anchored ones; an explicit required/optional wins; each part gets its own parameters over the given defaults."""
     c.types(spec1=Str, spec2=Str, name=OptT(Str), adapter_type=Str, search_parameters=SearchT)
+    c.returns(LinkedObjT)
     c.runtime = {"module": "c18", "name": "specification", "replay_count": 4000}
     c.spec(cls_spec)
     c.spec(parsed_spec)
@@ -333,8 +352,8 @@ def make_linked_adapter(c):
         noninternal_front_part_is_optional_with_a=noninternal_clause("front", F),
         noninternal_back_part_is_optional_with_a=noninternal_clause("back", Bk),
         name_defaults_to_the_name_of_the_front_part=
-        f"implies(not is_none(name), seq_eq(val(kwval(result, 'name')), val(name))) and "
-        f"implies(is_none(name), passed(result, 'name') == (not is_none({F}.name)) and "
+        f"implies(not is_none(old(name)), seq_eq(val(kwval(result, 'name')), val(old(name)))) and "
+        f"implies(is_none(old(name)), passed(result, 'name') == (not is_none({F}.name)) and "
         f"implies(not is_none({F}.name), seq_eq(val(kwval(result, 'name')), val({F}.name))))",
         each_part_gets_its_own_parameters_over_the_defaults=" and ".join(
             f"precedence({A}, '{k}', {P}.parameters, search_parameters)" for A, P in ((FA, F), (BA, Bk))
@@ -368,3 +387,169 @@ def extra_checks(res, tier, seed, known, log):
                            label="reference parser written from the guide vs cutadapt.parser on an enumerated grammar plus random specifications")
     runner.runtime_standin(res, "C18", "c18", "cli_invalid", seed, 0, 300, prefix="C18:", exhaustive=True, tier=tier,
                            label="invalid specifications end with an error message and exit status 2 (command line)")
+
+
+# ------------------------------------------------------------------------------ file: notation
+FileParamsT = KwDictT(max_errors=Real, min_overlap=Int, anywhere=Bool, required=Bool, indels=Bool, rightmost=Bool)
+FP_KEYS = ["max_errors", "min_overlap", "anywhere", "required", "indels", "rightmost"]
+PS_ABSENT = {k: z3.Function(f"search_parameters_of.{k}.absent", AII, I, B) for k in FP_KEYS}
+PS_VAL = {k: z3.Function(f"search_parameters_of.{k}", AII, I, {"max_errors": R, "min_overlap": I}.get(k, B)) for k in FP_KEYS}
+
+
+def file_spec(cx):
+    from pyvc.world import first_index, named_slice
+
+    def params_of(text):
+        s = as_str(text)
+        return ObjV("__kwdict__", {k: Opt(PS_ABSENT[k](s.arr, s.n), PS_VAL[k](s.arr, s.n)) for k in FP_KEYS})
+
+    def same_params(d, e):
+        cs = []
+        for k in FP_KEYS:
+            a, b = d.fields[k], e.fields[k]
+            cs += [a.none == b.none, z3.Implies(z3.Not(a.none), a.val == b.val)]
+        return z3.And(*cs)
+
+    def dict_precedence(result, key, *dicts):
+        """entry `key` of the dict `result` comes from the first of `dicts` that has it (absent if none has)"""
+        key = key.v if isinstance(key, PyConst) else key
+        ab = cx.spec["entry_absent"]
+        none_has = z3.And(*[ab(d, key) for d in dicts])
+        cs = [ab(result, key) == none_has]
+        higher = z3.BoolVal(True)
+        for d in dicts:
+            if key in d.fields and key in result.fields:
+                cs.append(z3.Implies(z3.And(higher, z3.Not(ab(d, key))), cx.spec["entry_val"](result, key) == cx.spec["entry_val"](d, key)))
+            higher = z3.And(higher, ab(d, key))
+        return z3.And(*cs)
+
+    def only_constructor_parameters(d):
+        cs = [cx.spec["entry_absent"](d, k) for k in d.fields if k not in SEARCH_KEYS]
+        return z3.And(*cs) if cs else z3.BoolVal(True)
+
+    def yields_exactly_one(res):
+        """the generator yielded exactly one adapter (decidable only where the yielded list is known)"""
+        if isinstance(res, ListV):
+            return z3.Sum(*[z3.If(g, 1, 0) for g, _ in res.items]) == 1 if res.items else z3.BoolVal(False)
+        if isinstance(res, ObjV) and "when" in res.fields:
+            return z3.And(res.fields["when"], yields_exactly_one(res.fields["items"]))
+        return z3.BoolVal(False)
+
+    cx.spec["yields_exactly_one"] = yields_exactly_one
+    cx.spec.update(params_of=params_of, same_params=same_params, dict_precedence=dict_precedence,
+                   only_constructor_parameters=only_constructor_parameters)
+
+
+
+def dots_spec(cx):
+    """left / right of the first '...' in a specification, exactly as str.partition('...') gives them"""
+    from pyvc.world import first_sub, named_slice
+
+    def has_dots(spec):
+        s = as_str(spec)
+        return first_sub(cx, s, "...") < s.n
+
+    def before_dots(spec):
+        s = as_str(spec)
+        return named_slice(cx, s, z3.IntVal(0), first_sub(cx, s, "..."))
+
+    def after_dots(spec):
+        s = as_str(spec)
+        p = first_sub(cx, s, "...")
+        return named_slice(cx, s, z3.If(p < s.n, p + 3, s.n), s.n)
+
+    cx.spec.update(has_dots=has_dots, before_dots=before_dots, after_dots=after_dots)
+
+
+SEARCH_ONLY = "search_parameters_hold_constructor_parameters_only"
+
+
+@contract("parser.py", "make_adapter", props=["C18"])
+def make_adapter(c):
+    """A...B with both sides given is a linked adapter; -a ...B is the 3' adapter B; -a A... and -g A... are the 5' adapter A;
+    anything without '...' is taken as it is."""
+    c.types(spec=Str, adapter_type=Str, search_parameters=SearchT, name=OptT(Str))
+    c.returns(AnyAdapterT)
+    c.defaults["name"] = None
+    c.spec(cls_spec)
+    c.spec(parsed_spec)
+    c.spec(ctor_spec)
+    c.spec(dots_spec)
+    c.spec(file_spec)
+    c.requires(search_parameters_hold_constructor_parameters_only="only_constructor_parameters(search_parameters)")
+    # inlined (its own contract is proved separately): `parsed` is a function of the very string value that is passed on
+    c.inline.update({"_normalize_ellipsis"})
+    c.raises("ValueError", when=None)
+    c.raises("KeyError", when=None)
+    L, Rt = "before_dots(old(spec))", "after_dots(old(spec))"
+    LINKED = f"(has_dots(old(spec)) and len({L}) > 0 and len({Rt}) > 0)"
+    c.ensures(
+        linked_iff_both_sides_of_the_dots_are_given=f"is_cls(result, 'LinkedAdapter') == {LINKED}",
+        linked_parts=f"implies({LINKED}, " + class_table("kwval(result, 'front_adapter')", f"parsed({L}, 'front')") + " and " +
+                     class_table("kwval(result, 'back_adapter')", f"parsed({Rt}, 'back')") + ")",
+        without_dots_the_specification_is_taken_as_it_is=f"implies(not has_dots(old(spec)), " + class_table("result", "parsed(old(spec), old(adapter_type))") +
+                                                         " and seq_eq(kwval(result, 'sequence'), parsed(old(spec), old(adapter_type)).sequence))",
+        a_dots_adapter_is_a_3prime_adapter=f"implies(has_dots(old(spec)) and len({L}) == 0, seq_eq(old(adapter_type), 'back') and " +
+                                           class_table("result", f"parsed({Rt}, 'back')") + ")",
+        adapter_dots_is_a_5prime_adapter=f"implies(has_dots(old(spec)) and len({L}) > 0 and len({Rt}) == 0, not seq_eq(old(adapter_type), 'anywhere') and " +
+                                         class_table("result", f"parsed({L}, 'front')") + ")",
+    )
+    c.runtime = {"module": "c18", "name": "specification", "replay_count": 4000}
+    c.mutant("spec1 and spec2", "spec1 or spec2")
+    c.mutant("_make_linked_adapter(spec1, spec2, name, adapter_type, search_parameters)", "_make_linked_adapter(spec2, spec1, name, adapter_type, search_parameters)")
+
+
+@contract("parser.py", "parse_search_parameters", props=[], name="parse_search_parameters@abstract")
+def parse_search_parameters_abstract(c):
+    """Call-site contract: a deterministic function of the text that may raise (what it computes: bounded comparison)."""
+    c.types(spec=Str)
+    c.returns(FileParamsT)
+    c.spec(ctor_spec)
+    c.spec(file_spec)
+    c.raises("KeyError", when=None)
+    c.raises("ValueError", when=None)
+    c.ensures(deterministic="same_params(result, params_of(spec))")
+
+
+api.BY_NAME["parse_search_parameters"] = parse_search_parameters_abstract
+
+
+@contract("parser.py", "read_adapters_fasta", props=[], name="read_adapters_fasta@abstract")
+def read_adapters_fasta_abstract(c):
+    c.types(path=Str)
+    c.returns(SeqT(TupT(OptT(Str), Str)))
+    c.raises("OSError", when=None)
+    c.ensures(some_records="len(result) >= 0")
+
+
+api.BY_NAME["read_adapters_fasta"] = read_adapters_fasta_abstract
+
+# make_adapter at its call sites: its defaults dict may only hold what the adapter constructors take
+make_adapter_requires = dict(search_parameters_hold_constructor_parameters_only="only_constructor_parameters(search_parameters)")
+
+
+@contract("parser.py", "make_adapters_from_one_specification", props=["C18"])
+def make_adapters_from_one_specification(c):
+    """file:, ^file: and file$: read every FASTA record (anchoring each with ^ / $); parameters after the path override the
+    global ones and are themselves overridden by the parameters of the individual records (the latter in make_adapter)."""
+    c.types(spec=Str, adapter_type=Str, search_parameters=SearchT)
+    c.spec(cls_spec)
+    c.spec(parsed_spec)
+    c.spec(ctor_spec)
+    c.spec(dots_spec)
+    c.spec(file_spec)
+    c.local_types["name"] = OptT(Str)
+    c.raises("ValueError", when=None)
+    c.raises("KeyError", when=None)
+    c.raises("InvalidCharacter", when=None)
+    c.raises("OSError", when=None)
+    c.loop(1, head="for name, spec in read_adapters_fasta(path)", inv=["True"])
+    FILE = "(old(spec).startswith('file:') or old(spec).startswith('^file:') or old(spec).startswith('file$:'))"
+    c.ghost("__assert__(" + " and ".join(f"dict_precedence(parameters, '{k}', params_of(parameters_spec), search_parameters)" for k in FP_KEYS if k in SEARCH_KEYS) +
+            ", 'file_level_parameters_override_the_global_ones')", before="for name, spec in read_adapters_fasta(path)")
+    c.ghost("__assert__(seq_eq(anchoring_prefix, '^') == old(spec).startswith('^file:') and seq_eq(anchoring_suffix, '$') == old(spec).startswith('file$:') "
+            "and (len(anchoring_prefix) == 0 or len(anchoring_suffix) == 0) and len(anchoring_prefix) <= 1 and len(anchoring_suffix) <= 1, "
+            "'caret_file_anchors_5prime_and_file_dollar_anchors_3prime')", before="for name, spec in read_adapters_fasta(path)")
+    c.ensures(without_file_prefix_one_adapter_from_the_specification_itself=f"implies(not {FILE}, yields_exactly_one(result))")
+    c.mutant("anchoring_suffix = '$'", "anchoring_suffix = ''")
+    c.mutant("parameters.update(parse_search_parameters(parameters_spec))", "parse_search_parameters(parameters_spec).update(parameters)")
